@@ -60,4 +60,4 @@ s = put(s, "FIXED_TABLE", fixed)
 s = put(s, "SEEDED_TABLE", seeded)
 s = put(s, "OVERVIEW_TABLE", overview)
 open(p, "w").write(s)
-print("DESIGN.md tables regenerated: %d fixed, %d seeded" % (len(kf["fixed"]), len(rows) - 2))
+print("DESIGN.md tables regenerated: %d fixed, %d seeded" % (len(kf["fixed"]), seeded.count("\n") - 1))
